@@ -544,6 +544,31 @@ func TestC12Shutdown(t *testing.T) {
 			}
 			conns = append(conns, c)
 		}
+		// a peer that asks for a sync reply far larger than the socket buffers (a
+		// migration order with a huge location) and then never reads it
+		unread := rapid.IntRange(0, 2).Draw(t, "unreadLargeReply") == 0
+		if unread {
+			ng := keyFor("c12-big-gca")
+			big := ref.AuthServer{PublicKey: keyFor("c12-big-peer").Pub, Location: strings.Repeat("L", rapid.SampledFrom([]int{8 << 20, 12 << 20}).Draw(t, "bigLocation")), HttpPort: 1, TcpPort: 1, UdpPort: 1}
+			big.Sig = ref.Sign(ng, big.SigningBytes())
+			m := ref.Migration{Equipment: w.devKey[w.devs[0]].Pub, NewGCA: ng.Pub, NewShortID: 7, NewServers: []ref.AuthServer{big}}
+			m.Sig = ref.Sign(s.gca, m.SigningBytes())
+			s.S.S.VerifInstallMigration(world.ToGlowMigration(m))
+			c, err := net.Dial("tcp", fmt.Sprintf("127.0.0.1:%d", s.S.TCP))
+			if err != nil {
+				t.Fatal(err)
+			}
+			if tc, ok := c.(*net.TCPConn); ok {
+				tc.SetReadBuffer(4096) // a small receive window: the reply cannot simply vanish into socket buffers
+			}
+			var id [4]byte
+			binary.LittleEndian.PutUint32(id[:], w.devs[0])
+			c.Write(id[:])
+			conns = append(conns, c)
+			time.Sleep(30 * time.Millisecond) // let the handler start writing
+			nIdle++
+			ev.Label("c12:shutdown-with-unread-large-reply")
+		}
 		stall := rapid.Bool().Draw(t, "stalledPeer")
 		var ln net.Listener
 		if stall {
@@ -595,9 +620,13 @@ func TestC12Shutdown(t *testing.T) {
 						return
 					}
 				}
-				if _, refused, err := s.S.SyncDevice(w.devs[0]); err != nil || refused {
-					probeDone <- fmt.Sprintf("sync request: %v refused=%v", err, refused)
-					return
+				// (with the huge migration order installed the device's own reply is
+				// longer than the two-byte length prefix can say: not probed then)
+				if !unread {
+					if _, refused, err := s.S.SyncDevice(w.devs[0]); err != nil || refused {
+						probeDone <- fmt.Sprintf("sync request: %v refused=%v", err, refused)
+						return
+					}
 				}
 				probeDone <- ""
 			}()
